@@ -502,8 +502,11 @@ func checkBestProof(c *Ctx, f *ssa.Function) {
 			{"syncGetBestProof:quit-tested-every-slot", isQuitSelect, "the quit channel"},
 			{"syncGetBestProof:stale-tested-every-slot", isStaleCall, "the stale monitor"},
 		} {
-			again := reach(f, q, nil, spec.stop)(q)
-			first := reach(f, nil, nil, spec.stop)(q)
+			// the test may sit in a boolean helper (summary.go): a call of a helper that always consults it,
+			// or the outcome edge of a helper that consulted it before answering that way
+			stop, cut := liftMust(f, spec.stop), condLiftCut(f, spec.stop)
+			again := reach(f, q, cut, stop)(q)
+			first := reach(f, nil, cut, stop)(q)
 			if again || first {
 				c.Bad("C08-SLOT", spec.key, c.Pos(q.Pos()), "a slot can be evaluated without consulting "+spec.what+" since the previous evaluation: the round is not abandoned promptly")
 			} else {
